@@ -1403,6 +1403,13 @@ def unit_traversal(inj, scratch):
         raise AnchorLost('visit_dir: let canonical_path = .. not found')
     m = ms[0]
     prologue = dedent(s.text[it2['open'] + 1:m.start()].strip())
+    # ok_to_visit_dir: the cfg(unix) variant (the first one in the file)
+    oks = s.find_all(r'\bfn\s+ok_to_visit_dir\s*\(', s.impl_spans('Searcher')[0] if len(s.impl_spans('Searcher')) == 1 else None)
+    if not oks:
+        raise AnchorLost('ok_to_visit_dir not found')
+    k = oks[0].start()
+    ob_ = s.mask.index('{', k)
+    okbody = dedent(s.text[ob_:s.match_close(ob_) + 1])
     text = f'''pub mod traversal {{
 {H('frag_traversal_prelude.rs')}
 impl Searcher {{
@@ -1413,6 +1420,8 @@ impl Searcher {{
         {prologue}
         Err(1)
     }}
+    // ---- verbatim: body of Searcher::ok_to_visit_dir (unix) ----
+    pub fn ok_to_visit_dir(&mut self, entry: &DirEntry, file_type: FileType) -> bool {okbody}
 }}
 {H('frag_traversal.kani.rs')}
 }}
